@@ -1089,3 +1089,57 @@ def expr_conditions(node):
         child = n
         n = getattr(n, "_parent", None)
     return out
+
+
+def element_positions(loop) -> dict:
+    """For a loop (ast.For / ast.comprehension) over tuples: local name -> tuple position it holds.  Understands a tuple target,
+    `a, b = item`, `a = item[0]` and `a, b = item[0], item[1]` for a single-name target."""
+    pos = {}
+    tgt = loop.target
+    if isinstance(tgt, (ast.Tuple, ast.List)):
+        for k, t in enumerate(tgt.elts):
+            if isinstance(t, ast.Name):
+                pos[t.id] = k
+        return pos
+    if not isinstance(tgt, ast.Name):
+        return pos
+    item = tgt.id
+    body = loop.body if isinstance(loop, ast.For) else []
+
+    def idx(e):
+        if isinstance(e, ast.Subscript) and isinstance(e.value, ast.Name) and e.value.id == item and isinstance(e.slice, ast.Constant) and isinstance(e.slice.value, int):
+            return e.slice.value
+        return None
+
+    for st in body:
+        for a in ast.walk(st):
+            if not isinstance(a, ast.Assign) or len(a.targets) != 1:
+                continue
+            t, v = a.targets[0], a.value
+            if isinstance(t, (ast.Tuple, ast.List)) and isinstance(v, ast.Name) and v.id == item:
+                for k, x in enumerate(t.elts):
+                    if isinstance(x, ast.Name):
+                        pos[x.id] = k
+            elif isinstance(t, (ast.Tuple, ast.List)) and isinstance(v, (ast.Tuple, ast.List)) and len(t.elts) == len(v.elts):
+                for x, y in zip(t.elts, v.elts):
+                    if isinstance(x, ast.Name) and idx(y) is not None:
+                        pos[x.id] = idx(y)
+            elif isinstance(t, ast.Name) and idx(v) is not None:
+                pos[t.id] = idx(v)
+    return pos
+
+
+def isinstance_alternatives(test, var: str):
+    """Class expressions C1..Cn when `test` is isinstance(var, C), isinstance(var, (C1, .., Cn)) or an `or` of such tests; else None."""
+    if isinstance(test, ast.Call) and call_name(test) == "isinstance" and len(test.args) == 2 and norm(test.args[0]) == var:
+        t = test.args[1]
+        return list(t.elts) if isinstance(t, ast.Tuple) else [t]
+    if isinstance(test, ast.BoolOp) and isinstance(test.op, ast.Or):
+        out = []
+        for v in test.values:
+            a = isinstance_alternatives(v, var)
+            if a is None:
+                return None
+            out += a
+        return out
+    return None
